@@ -261,7 +261,11 @@ class Run:
             "wall_s": round(time.time() - self.t0, 2),
             "violations": len(concrete) + (1 if (noinput and not concrete) else 0),
         }
-        json.dump(ev, open(os.path.join(common.VERIF, "evidence", f"{self.pid}.json"), "w"), indent=1, default=str)
+        evdir = os.path.join(common.VERIF, "evidence")
+        if os.environ.get("VERIF_NOLEAN") or os.environ.get("VERIF_COVERAGE"):
+            evdir = os.path.join(common.WORK, "dev-evidence")     # development runs never overwrite the evidence of the registered commands
+            os.makedirs(evdir, exist_ok=True)
+        json.dump(ev, open(os.path.join(evdir, f"{self.pid}.json"), "w"), indent=1, default=str)
         for l in lines:
             print(l)
         bad = any(l.startswith("VIOLATION") for l in lines)
